@@ -11,10 +11,7 @@ namespace K
 variable {α : Type} [Add α] [Sub α] [Mul α] [Div α] [Neg α] [LT α] [LE α]
   [DecidableLT α] [DecidableLE α] [OfScientific α] [KOps α]
 
-structure ClockTime (α : Type) where
-  ticks : Nat
-  fraction : α
-deriving Repr
+-- `structure ClockTime` is declared in Model/UnitTypes.lean (the generated layer uses it)
 
 /-- `f64::is_sign_negative` for finite values: negative, or `-0.0` (one over minus zero is minus infinity). -/
 def signNeg (x : α) : Bool :=
@@ -22,11 +19,13 @@ def signNeg (x : α) : Bool :=
 
 namespace ClockTime
 
-/-- mirrors: clock/time.rs::ClockTime::from_ticks_f64 -/
-def fromTicksF64 (x : α) : ClockTime α := ⟨KOps.toNatSat x, fract x⟩
+/-- mirrors: clock/time.rs::ClockTime::from_ticks_f64 — generated (GenFn.lean) -/
+def fromTicksF64 (x : α) : ClockTime α := gen_body% Gen.clockTimeFromTicksF64 x
+gen_alias Gen.clockTimeFromTicksF64 => fromTicksF64
 
-/-- mirrors: `impl Add<u64> for ClockTime` -/
-def addU64 (t : ClockTime α) (n : Nat) : ClockTime α := ⟨t.ticks + n, t.fraction⟩
+/-- mirrors: `impl Add<u64> for ClockTime` — generated (GenFn.lean) -/
+def addU64 (t : ClockTime α) (n : Nat) : ClockTime α := gen_body% Gen.clockTimeAddU64 t n
+gen_alias Gen.clockTimeAddU64 => addU64
 
 /-- mirrors: `impl Sub<u64> for ClockTime` (`none` = u64 underflow: panic in debug builds) -/
 def subU64 (t : ClockTime α) (n : Nat) : Option (ClockTime α) :=
